@@ -409,6 +409,11 @@ def agentPoke (s : ESpace) (a : Aid) (j : Nat) : Except Err Unit :=
   | .error e => .error e
   | .ok p => if j < p.length then .ok () else .error .index
 
+/-- `space.agent_positions[i] = p`: a user write through the public view of the filled rows — no bounds check,
+    no torus wrap, no agent involved (`IndexError` beyond the view) -/
+def rawWrite (s : ESpace) (i : Nat) (p : Pos) : Except Err ESpace :=
+  if i < s.view then .ok { s with buf := upd s.buf i p } else .error .index
+
 /-- rows selected by `agents=[…]`: `_agent_positions[[_agent_to_index[a] for a in agents]]` -/
 def rowsOf (s : ESpace) (sub : List Aid) : Except Err (List (Aid × Pos)) :=
   match collect (sub.map (fun a => (s.a2i a).map (fun i => (a, i)))) with
